@@ -354,6 +354,16 @@ def check(item, case, rec):
                 rec.label("load-set-by-update")
             else:
                 it = fem.SolidBodyCauchyStress(fc, cauchy_stress=sig)
+        if case["useed"] % 4 == 2 and fkind not in ("axi",) and item.startswith("CauchyStress"):
+            # the boundary region is re-evaluated on sheared points after the item was created (the documented
+            # mesh.update(points, callback=region.reload)) and the item is NOT told: whatever geometry it then works with, vector and
+            # matrix still belong together (not done for the follower pressure: its item keeps the normals it read when it was created,
+            # so after such a reload it is no longer the pressure on the closed surface whose symmetry is asserted below - section 9)
+            it.assemble.vector(fc)
+            Sh = np.eye(dim)
+            Sh[0, 1] = 0.25
+            rb.mesh.update(points=np.asarray(rb.mesh.points) @ Sh.T, callback=rb.reload)
+            rec.label("boundary-region-reloaded-on-sheared-points-after-the-item-was-created")
         items = [it]
     elif item in ("MPC", "Contact"):
         skip = tuple(case["skip"][:dim]) if not all(case["skip"][:dim]) else (False,) * dim
